@@ -99,6 +99,36 @@ theorem predictFF_listing_invariant (cs cs' : List SComp) (h : cs.Perm cs') (hn 
   exact sol_unique (toposort cs) (readsIns_perm hp.symm hr) ht x _ _ (sol_perm hp.symm s1)
     (sol_perm (h.symm.trans hp.symm) s2)
 
+/-! ## NaN samples: the code's single validity mask (finding F15)
+
+`System.predict` keeps ONE mask per call: after every component, samples whose freshly written outputs are NaN are dropped
+for the rest of the sweep. The model below mirrors that (values are `Option Q`, `none` = NaN, one sample); the witness shows
+that with this rule the output of an independent sibling depends on the listing — the full-strength property is FALSE of
+the pinned tree for NaN-producing components, and the check reports it as known finding F15. -/
+
+/-- one sample through the sweep with the code's global mask: once `valid` is false no later component is evaluated and its
+    outputs stay `none` -/
+def sweepGlobalMask (order : List (List String × List String × ((String → Option Q) → String → Option Q)))
+    (env : String → Option Q) : String → Option Q :=
+  (order.foldl (fun (st : (String → Option Q) × Bool) c =>
+      if st.2 then
+        let env' : String → Option Q := fun v => if v ∈ c.2.1 then c.2.2 st.1 v else st.1 v
+        (env', c.2.1.all fun v => (env' v).isSome)
+      else st) (env, true)).1
+
+def nA : List String × List String × ((String → Option Q) → String → Option Q) :=
+  (["x"], ["y0"], fun e _ => (e "x").map (· * 2))
+def nB : List String × List String × ((String → Option Q) → String → Option Q) :=
+  (["y0"], ["yb"], fun e _ => (e "y0").bind fun y => if y ≤ 1 then none else some (y - 1))      -- undefined for y0 ≤ 1
+def nC : List String × List String × ((String → Option Q) → String → Option Q) :=
+  (["y0"], ["yc"], fun e _ => (e "y0").map (· + 1))
+def nEnv : String → Option Q := fun v => if v = "x" then some (1/10) else none
+
+/-- **F15 witness**: the same three components, both orders topological; `yc` is a value in one listing and NaN in the other -/
+theorem global_mask_listing_dependent :
+    sweepGlobalMask [nA, nC, nB] nEnv "yc" = some (6/5) ∧ sweepGlobalMask [nA, nB, nC] nEnv "yc" = none := by
+  constructor <;> decide +kernel
+
 /-! non-vacuity: a two-component chain listed in both orders -/
 def cA : SComp := { name := "a", ins := ["x"], outs := ["y"], fn := fun e v => if v = "y" then e "x" * e "x" + 1 else 0 }
 def cB : SComp := { name := "b", ins := ["y", "x"], outs := ["z"], fn := fun e v => if v = "z" then e "y" - 3 * e "x" else 0 }
